@@ -101,13 +101,13 @@ pub fn generate(out: &mut Out, prop: &str, thorough: bool, seed: u64) {
             universal::gen_cli_histories(out, &mut rng, n / 2);
             universal::gen_srv_histories(out, &mut rng, n / 2);
         }
-        "C15" | "C12" | "C20" => {
+        "C15" | "C12" | "C20" | "C10" => {
             // these monitors read any client history
             out.monitored = true;
             universal::gen_cli_histories(out, &mut rng, n);
             out.monitored = false;
         }
-        "C06" | "C10" | "C13" | "C16" => universal::gen_cli_histories(out, &mut rng, n),
+        "C06" | "C13" | "C16" => universal::gen_cli_histories(out, &mut rng, n),
         "C07" | "C14" => universal::gen_srv_histories(out, &mut rng, n),
         "C03" => {
             // C03's monitor is generic (no panic, termination, bounded buffers): it judges these too
